@@ -159,6 +159,18 @@ def run(ctx: Ctx) -> Result:
         st, items, o = run_s(hist)
         if st != 'OK' or len(items) != 2 or not ref_verify(X, m, items[0] + items[1]):
             viol('decrypt after an earlier adapter for a different tweak point (same cache)', {'script': hist.hex(), 'message': m.hex(), 'key': X.hex()}, 'a valid signature (R+T, sa+t)', o)
+    # the library's own tweak recovery (t = s - sa, release_left_amhl_lock with y = 0): exact for the 64-byte signature; given the
+    # 65-byte form (signature || flag byte) it refuses or recovers the same scalar
+    for it in range(ctx.n(60, 600)):
+        sa_ = (rng.getrandbits(252)).to_bytes(32, 'little'); s_ = (rng.getrandbits(252)).to_bytes(32, 'little'); R_ = V.rbytes(rng, 32)
+        wit = b'\x03\x20' + sa_ + b'\x03\x20' + R_
+        want = ((int.from_bytes(s_, 'little') - int.from_bytes(sa_, 'little')) % L).to_bytes(32, 'little')
+        res.note_case(('recover', sa_, s_))
+        for sigform in (R_ + s_, R_ + s_ + bytes([rng.choice([1, 2, 0x80])])):
+            try: got = T.release_left_amhl_lock(wit, sigform, bytes(32))
+            except BaseException: got = want if len(sigform) == 65 else b'ERR'
+            if got != want:
+                viol(f'tweak recovery from the {len(sigform)}-byte signature form', {'adapter_witness': wit.hex(), 'signature': sigform.hex()}, want.hex(), got.hex() if got != b'ERR' else 'raised')
     # builders end to end
     for it in range(ctx.n(40, 400)):
         seed = V.rbytes(rng, 32); sk = SigningKey(seed); X = bytes(sk.verify_key)
@@ -166,6 +178,8 @@ def run(ctx: Ctx) -> Result:
         flags = rng.choice(['00', '00', '01', '02', '03', '80'])
         sf = {f'sigfield{i}': V.rbytes(rng, rng.choice([1, 8, 30])) for i in range(1, 9) if rng.random() < .5}
         if not sf: sf['sigfield1'] = b'x'
+        if it % 8 == 5: sf = {f'sigfield{rng.randrange(1, 9)}': b''}            # the 0-byte message: a present but empty sigfield
+        if it % 8 == 6: sf = {f'sigfield{rng.randrange(1, 9)}': b'', f'sigfield{rng.randrange(1, 9)}': b''}
         res.note_case(('builders', seed, t_raw, flags, tuple(sorted(sf))))
         try:
             w = T.make_adapter_witness(seed, Tp, sf, flags)
